@@ -70,6 +70,15 @@ LimCzM(kind, L) ==
              NormalSent |-> Always(1), NormalRecv |-> Always(0)]),
          St(NoAction, Ctr("dec"), NoCtr, [CounterZero |-> Always(0), NormalSent |-> Always(1)])>>)
 
+\* leaves the limited state and re-enters it through two CounterZero transitions inside one
+\* transition: the limit sampled on re-entry may differ from the one the outer transition saw
+LimReenterM(kind, L) ==
+  Mach(1000, Unset, 1000, Unset,
+       <<St(NoAction, NoCtr, NoCtr, [NormalSent |-> Always(1)]),
+         St(NoAction, Ctr("inc"), Ctr("inc"), [NormalRecv |-> Always(2), NormalSent |-> Always(1)]),
+         St(LimAction(kind, L), Ctr("dec"), NoCtr,
+            [CounterZero |-> Always(3), PaddingSent |-> Always(2), NormalSent |-> Always(1)]),
+         St(NoAction, NoCtr, Ctr("dec"), [CounterZero |-> Always(2), NormalSent |-> Always(1)])>>)
 LimKinds == {"pad", "block", "timer"}
 LimConfs(Ls) ==
   {Cf(<<LimM(k, L)>>, Unset, Unset) : k \in LimKinds, L \in Ls}
@@ -209,6 +218,8 @@ FamilyConfs(id) ==
     [] id = "block-quick"  -> BlockConfs({0, 2}, {Unset, Half}, {Unset, Half})
     [] id = "block-thorough" -> BlockConfs2({0, 2}, {Unset, Quarter, One}, {Unset, Half})
     [] id = "limit-quick"  -> LimConfs({Const(0), Const(1), Const(2)})
+    [] id = "limit-reenter" -> {Cf(<<LimReenterM(k, OneOf({0, 2}))>>, Unset, Unset) : k \in LimKinds}
+                               \cup {Cf(<<LimReenterM("pad", Const(1))>>, Unset, Unset)}
     [] id = "limit-thorough" -> LimConfs({Const(0), Const(1), Const(2), OneOf({0, 1, 2})})
                                 \cup LimConfs2({Const(1), OneOf({0, 2})})
     [] id = "ctr-quick"    -> CtrConfsA(CtrSpecs) \cup CtrConfs2
